@@ -6,6 +6,7 @@ import (
 	"encoding/binary"
 	"errors"
 	"io"
+	"math"
 
 	"github.com/sassoftware/relic/v8/lib/binpatch"
 )
@@ -166,14 +167,27 @@ func scanFile(r io.Reader) (*machoMarkers, error) {
 			f.loadCsStart = cmdPos
 		}
 	}
+	if f.linkEditHdrPos == 0 {
+		return nil, errors.New("__LINKEDIT segment not found")
+	}
+	// LC_CODE_SIGNATURE can only address the first 4GiB of the file so the
+	// segment holding it has to end before that
+	if f.linkEditHdr.Offset > math.MaxUint32 || f.linkEditHdr.Filesz > math.MaxUint32 ||
+		f.linkEditHdr.Offset+f.linkEditHdr.Filesz > math.MaxUint32 {
+		return nil, errors.New("__LINKEDIT segment is too large")
+	}
 	linkEditEnd := int64(f.linkEditHdr.Offset) + int64(f.linkEditHdr.Filesz)
 	if f.sigLen != 0 {
 		f.codeSize = f.sigStart
 		sigEnd := f.sigStart + f.sigLen
 		if sigEnd > linkEditEnd || sigEnd < linkEditEnd-16 {
 			return nil, errors.New("old signature is not coterminous with __LINKEDIT segment")
+		} else if f.sigStart < int64(f.linkEditHdr.Offset) {
+			return nil, errors.New("old signature is not inside __LINKEDIT segment")
 		}
 	} else {
+		// an empty signature has no meaningful position
+		f.sigStart = 0
 		f.codeSize = linkEditEnd
 	}
 	return f, nil
